@@ -263,6 +263,8 @@ def full_driver_source(schema, names, name='sch'):
     disp += ['static void sizes()', '{']
     for i, n in enumerate(names):
         disp.append('    printf("K %d %%zu %%d\\n", sizeof(%s), int(%s::encoded_byte_size));' % (i, n, n))
+    for d in schema.composites():
+        disp.append('    printf("Z %s %%zu\\n", sizeof(%s));' % (d.name, d.name))
     disp += ['}']
     fwd = ['template <class T> void run_e(int e, const std::vector<uint8_t>& in, int op);']
     return (DRIVER_HEAD % {'name': name} + _mutators(schema, names) + '\n' + '\n'.join(fwd) + '\n' +
@@ -317,6 +319,8 @@ def type_sizes(binary):
         a = ln.split()
         if len(a) == 4 and a[0] == 'K':
             out[int(a[1])] = (int(a[2]), int(a[3]))
+        elif len(a) == 3 and a[0] == 'Z':
+            out[a[1]] = int(a[2])            # sizeof of every composite type of the schema, by name
     return out
 
 
